@@ -73,6 +73,9 @@ func scalar(c *vh.Ctx, fd protoreflect.FieldDescriptor, o Opts) protoreflect.Val
 		return protoreflect.ValueOfFloat64(math.Float64frombits(b))
 	case protoreflect.StringKind:
 		s := strsv[r.Intn(len(strsv))]
+		if r.Intn(8) == 0 {
+			s += []string{"\ufffd", "\u0000", "\U0010ffff", "\ud7ff\ue000", "\u2028", "\u007f\u0080"}[r.Intn(6)] // valid, but next to what the validators single out
+		}
 		if o.BadUTF8 && r.Intn(4) == 0 {
 			s += []string{"\xff", "\xc0\x80", "\xed\xa0\x80", "\xe2\x82", "\x80", "\xf4\x90\x80\x80"}[r.Intn(6)]
 		}
